@@ -236,6 +236,9 @@ namespace {
     const M3 A = gen::stensorToM3(s);  // the value actually passed
     const R nA = ref::norm(A);
     const R tiny = static_cast<R>(std::numeric_limits<T>::min()) * 1e3L;
+    // domain: |s|^6 must not underflow (closed forms), only possible in float
+    // when a single tiny component survives: rare, discarded and counted
+    if (std::is_same_v<T, float> && nA > 0 && nA < 1e-4L) c.discard();
     // reference spectrum
     R rvp[3];
     M3 RV;
@@ -342,9 +345,15 @@ namespace {
       // reported
       tolq = illConditioned ? R(0.5) : rel_v;
     } else {
-      // TFEL Cardano / Harari: cross-product eigenvectors, error ~ u/gap
+      // TFEL Cardano / Harari (both use StensorComputeEigenVectors<3>):
+      // cross-product eigenvectors, error ~ u |s| / sep where sep is the
+      // separation of the *computed* eigenvalues.  Eigenvalues closer than
+      // rel_prec = 1000 u are treated as equal by that code; a repeated
+      // eigenvalue is computed with an error up to sqrt(u)|s| so that sep can
+      // be anywhere above 1000 u in the degenerate class.
       tolq = K_AN * su;
-      if (nearDeg) tolq = std::min(R(0.5), std::max(tolq, K_NEAR * u / gB));
+      if (degenerate) tolq = std::min(R(0.5), std::max(tolq, K_NEAR / 1000));
+      else if (nearDeg) tolq = std::min(R(0.5), std::max(tolq, K_NEAR * u / std::max(gB, 1000 * u)));
     }
 #ifdef C03_CALIB
     tolq = 1e30L;  // calibration builds only record the raw errors
